@@ -17,6 +17,7 @@ CONSTANTS
   AuthSetups <- AuthSetupsDef
   Forms <- FormsDef
   AltForm <- AltFormDef
+  Scales <- ScalesDef
   Variant = "byname"
 INVARIANT SigVerifies
 CHECK_DEADLOCK FALSE
